@@ -1,15 +1,22 @@
 import ChessVerif.Props.C10
 open Chess.Props.C10
-#print axioms entryMoves_eq
-#print axioms movesOf_eq
-#print axioms promo_count
-#print axioms len_eq
-#print axioms isEmpty_iff
-#print axioms next_none_iff
-#print axioms drain_eq
-#print axioms movesOf_remove
-#print axioms movesOf_removeMove
-#print axioms movesOf_setMask_perm
-#print axioms legalsMasked_mask
-#print axioms next_head
-#print axioms next_tail_of_boundary
+#print axioms movesOf_legalsMasked
+#print axioms legalsMasked_iff
+#print axioms legalsMasked_nodup
+#print axioms setMask_perm_filter
+#print axioms drainSt_round
+#print axioms rounds_cover
+#print axioms rounds_legals
+#print axioms Chess.Props.C10.entryMoves_eq
+#print axioms Chess.Props.C10.movesOf_eq
+#print axioms Chess.Props.C10.promo_count
+#print axioms Chess.Props.C10.len_eq
+#print axioms Chess.Props.C10.isEmpty_iff
+#print axioms Chess.Props.C10.next_none_iff
+#print axioms Chess.Props.C10.drain_eq
+#print axioms Chess.Props.C10.movesOf_remove
+#print axioms Chess.Props.C10.movesOf_removeMove
+#print axioms Chess.Props.C10.movesOf_setMask_perm
+#print axioms Chess.Props.C10.legalsMasked_mask
+#print axioms Chess.Props.C10.next_head
+#print axioms Chess.Props.C10.next_tail_of_boundary
